@@ -23,6 +23,9 @@ def gen_case(rng, i):
         other = rng.choice([m for m in G.SC if m != n])
         calls.append({"k": "wrong_dtype", "type": n, "other": other})
         calls.append({"k": "refusals", "type": n, "bits": G.scalar_value(rng, n)})
+        if n in ("Float64", "Float32"):       # a complex array is no array of reals
+            calls.append({"k": "wrong_dtype", "type": n, "other": "complex128" if n == "Float64" else "complex64"})
+    calls.append({"k": "same_object", "x": rng.choice([0.1, 1e-60, 2.0 / 3.0, 1.0000001]), "n": rng.choice([7, 2 ** 40 + 1, -3])})
     for _ in range(3):
         calls.append({"k": "struct", "n_objs": rng.choice([1, 2, 3]), "gaps": rng.choice([None, [8], [24, 8, 40]]), "cap": rng.choice([64, 128, 1024]),
                       "vlen": rng.choice([1, 2, 3]), "grow": rng.choice([None, [64], [1000, 8]])})
